@@ -175,6 +175,50 @@ __v8hi __builtin_ia32_psubsw128(__v8hi a, __v8hi b) { __v8hi r; for (int i = 0; 
 __v16qi __builtin_ia32_psubusb128(__v16qi a, __v16qi b) { __v16qi r; for (int i = 0; i < 16; i++) { int d = (int)(uint8_t)a[i] - (int)(uint8_t)b[i]; r[i] = (char)(d < 0 ? 0 : d); } return r; }
 __v16qi __builtin_ia32_paddusb128(__v16qi a, __v16qi b) { __v16qi r; for (int i = 0; i < 16; i++) { int d = (int)(uint8_t)a[i] + (int)(uint8_t)b[i]; r[i] = (char)(d > 255 ? 255 : d); } return r; }
 
+/* byte/word shuffles, abs, andn, broadcast */
+__v16qi __builtin_ia32_pshufb128(__v16qi a, __v16qi m) { __v16qi r; for (int i = 0; i < 16; i++) r[i] = (m[i] & 0x80) ? 0 : a[m[i] & 15]; return r; }
+__v32qi __builtin_ia32_pshufb256(__v32qi a, __v32qi m) { __v32qi r; for (int l = 0; l < 2; l++) for (int i = 0; i < 16; i++) r[l * 16 + i] = (m[l * 16 + i] & 0x80) ? 0 : a[l * 16 + (m[l * 16 + i] & 15)]; return r; }
+__v4si __builtin_ia32_pshufd(__v4si a, int imm) { __v4si r; for (int i = 0; i < 4; i++) r[i] = a[(imm >> (2 * i)) & 3]; return r; }
+__v8hi __builtin_ia32_pshuflw(__v8hi a, int imm) { __v8hi r = a; for (int i = 0; i < 4; i++) r[i] = a[(imm >> (2 * i)) & 3]; return r; }
+__v8hi __builtin_ia32_pshufhw(__v8hi a, int imm) { __v8hi r = a; for (int i = 0; i < 4; i++) r[4 + i] = a[4 + ((imm >> (2 * i)) & 3)]; return r; }
+__v8si __builtin_ia32_pshufd256(__v8si a, int imm) { __v8si r; for (int l = 0; l < 2; l++) for (int i = 0; i < 4; i++) r[l * 4 + i] = a[l * 4 + ((imm >> (2 * i)) & 3)]; return r; }
+__v16hi __builtin_ia32_pshuflw256(__v16hi a, int imm) { __v16hi r = a; for (int l = 0; l < 2; l++) for (int i = 0; i < 4; i++) r[l * 8 + i] = a[l * 8 + ((imm >> (2 * i)) & 3)]; return r; }
+__v16hi __builtin_ia32_pshufhw256(__v16hi a, int imm) { __v16hi r = a; for (int l = 0; l < 2; l++) for (int i = 0; i < 4; i++) r[l * 8 + 4 + i] = a[l * 8 + 4 + ((imm >> (2 * i)) & 3)]; return r; }
+__v8hi __builtin_ia32_pabsw128(__v8hi a) { __v8hi r; for (int i = 0; i < 8; i++) r[i] = (short)(a[i] < 0 ? (uint16_t)(-(int)a[i]) : (uint16_t)a[i]); return r; }
+__v16hi __builtin_ia32_pabsw256(__v16hi a) { __v16hi r; for (int i = 0; i < 16; i++) r[i] = (short)(a[i] < 0 ? (uint16_t)(-(int)a[i]) : (uint16_t)a[i]); return r; }
+__v16qi __builtin_ia32_pabsb128(__v16qi a) { __v16qi r; for (int i = 0; i < 16; i++) r[i] = (char)(a[i] < 0 ? (uint8_t)(-(int)a[i]) : (uint8_t)a[i]); return r; }
+__v4si __builtin_ia32_pabsd128(__v4si a) { __v4si r; for (int i = 0; i < 4; i++) r[i] = (int)(a[i] < 0 ? 0u - (unsigned)a[i] : (unsigned)a[i]); return r; }
+__v8si __builtin_ia32_pabsd256(__v8si a) { __v8si r; for (int i = 0; i < 8; i++) r[i] = (int)(a[i] < 0 ? 0u - (unsigned)a[i] : (unsigned)a[i]); return r; }
+__v2di __builtin_ia32_pandn128(__v2di a, __v2di b) { __v2di r; r[0] = ~a[0] & b[0]; r[1] = ~a[1] & b[1]; return r; }
+__v4di __builtin_ia32_andnotsi256(__v4di a, __v4di b) { __v4di r; for (int i = 0; i < 4; i++) r[i] = ~a[i] & b[i]; return r; }
+__v16hi __builtin_ia32_pbroadcastw256(__v8hi a) { __v16hi r; for (int i = 0; i < 16; i++) r[i] = a[0]; return r; }
+__v32qi __builtin_ia32_pbroadcastb256(__v16qi a) { __v32qi r; for (int i = 0; i < 32; i++) r[i] = a[0]; return r; }
+__v8si __builtin_ia32_pbroadcastd256(__v4si a) { __v8si r; for (int i = 0; i < 8; i++) r[i] = a[0]; return r; }
+__v8hi __builtin_ia32_pbroadcastw128(__v8hi a) { __v8hi r; for (int i = 0; i < 8; i++) r[i] = a[0]; return r; }
+__v16qi __builtin_ia32_pbroadcastb128(__v16qi a) { __v16qi r; for (int i = 0; i < 16; i++) r[i] = a[0]; return r; }
+__v4di __builtin_ia32_psrldqi256(__v4di a, int bits) { __v32qi x = (__v32qi)a, r; int n = bits / 8; for (int l = 0; l < 2; l++) for (int i = 0; i < 16; i++) r[l * 16 + i] = (i + n < 16) ? x[l * 16 + i + n] : 0; return (__v4di)r; }
+__v4di __builtin_ia32_pslldqi256(__v4di a, int bits) { __v32qi x = (__v32qi)a, r; int n = bits / 8; for (int l = 0; l < 2; l++) for (int i = 0; i < 16; i++) r[l * 16 + i] = (i - n >= 0) ? x[l * 16 + i - n] : 0; return (__v4di)r; }
+__v2di __builtin_ia32_psadbw128(__v16qi a, __v16qi b) { __v2di r; for (int l = 0; l < 2; l++) { long long s = 0; for (int i = 0; i < 8; i++) { int d = (int)(uint8_t)a[l * 8 + i] - (int)(uint8_t)b[l * 8 + i]; s += d < 0 ? -d : d; } r[l] = s; } return r; }
+__v16hi __builtin_ia32_psadbw256(__v32qi a, __v32qi b) { __v16hi r; for (int i = 0; i < 16; i++) r[i] = 0; for (int l = 0; l < 4; l++) { int s = 0; for (int i = 0; i < 8; i++) { int d = (int)(uint8_t)a[l * 8 + i] - (int)(uint8_t)b[l * 8 + i]; s += d < 0 ? -d : d; } r[l * 4] = (short)s; } return r; }
+__v8hi __builtin_ia32_pmulhw128(__v8hi a, __v8hi b) { __v8hi r; for (int i = 0; i < 8; i++) r[i] = (short)(((int)a[i] * (int)b[i]) >> 16); return r; }
+__v16hi __builtin_ia32_pmulhw256(__v16hi a, __v16hi b) { __v16hi r; for (int i = 0; i < 16; i++) r[i] = (short)(((int)a[i] * (int)b[i]) >> 16); return r; }
+__v8hi __builtin_ia32_pmulhuw128(__v8hi a, __v8hi b) { __v8hi r; for (int i = 0; i < 8; i++) r[i] = (short)(((unsigned)(uint16_t)a[i] * (unsigned)(uint16_t)b[i]) >> 16); return r; }
+__v16hi __builtin_ia32_pmulhuw256(__v16hi a, __v16hi b) { __v16hi r; for (int i = 0; i < 16; i++) r[i] = (short)(((unsigned)(uint16_t)a[i] * (unsigned)(uint16_t)b[i]) >> 16); return r; }
+__v8hi __builtin_ia32_pmaddubsw128(__v16qi a, __v16qi b) { __v8hi r; for (int i = 0; i < 8; i++) r[i] = v_sat_s16((int)(uint8_t)a[2 * i] * (int)(int8_t)b[2 * i] + (int)(uint8_t)a[2 * i + 1] * (int)(int8_t)b[2 * i + 1]); return r; }
+__v8hi __builtin_ia32_pavgw128(__v8hi a, __v8hi b) { __v8hi r; for (int i = 0; i < 8; i++) r[i] = (short)(((unsigned)(uint16_t)a[i] + (unsigned)(uint16_t)b[i] + 1u) >> 1); return r; }
+__v16hi __builtin_ia32_pavgw256(__v16hi a, __v16hi b) { __v16hi r; for (int i = 0; i < 16; i++) r[i] = (short)(((unsigned)(uint16_t)a[i] + (unsigned)(uint16_t)b[i] + 1u) >> 1); return r; }
+
+__v16qi __builtin_ia32_lddqu(const char *p) { __v16qi r; memcpy(&r, p, 16); return r; }
+__v32qi __builtin_ia32_lddqu256(const char *p) { __v32qi r; memcpy(&r, p, 32); return r; }
+__v4di __builtin_ia32_pmovsxwq256(__v8hi a) { __v4di r; for (int i = 0; i < 4; i++) r[i] = (long long)a[i]; return r; }
+__v8si __builtin_ia32_pmovsxwd256(__v8hi a) { __v8si r; for (int i = 0; i < 8; i++) r[i] = (int)a[i]; return r; }
+__v8si __builtin_ia32_pmovzxwd256(__v8hi a) { __v8si r; for (int i = 0; i < 8; i++) r[i] = (int)(uint16_t)a[i]; return r; }
+__v4si __builtin_ia32_pmovzxwd128(__v8hi a) { __v4si r; for (int i = 0; i < 4; i++) r[i] = (int)(uint16_t)a[i]; return r; }
+__v4di __builtin_ia32_psllqi256(__v4di a, int n) { __v4di r; for (int i = 0; i < 4; i++) r[i] = (n < 0 || n > 63) ? 0 : (long long)((unsigned long long)a[i] << n); return r; }
+__v4di __builtin_ia32_psrlqi256(__v4di a, int n) { __v4di r; for (int i = 0; i < 4; i++) r[i] = (n < 0 || n > 63) ? 0 : (long long)((unsigned long long)a[i] >> n); return r; }
+__v2di __builtin_ia32_psllqi128(__v2di a, int n) { __v2di r; for (int i = 0; i < 2; i++) r[i] = (n < 0 || n > 63) ? 0 : (long long)((unsigned long long)a[i] << n); return r; }
+__v2di __builtin_ia32_psrlqi128(__v2di a, int n) { __v2di r; for (int i = 0; i < 2; i++) r[i] = (n < 0 || n > 63) ? 0 : (long long)((unsigned long long)a[i] >> n); return r; }
+
 /* Integer<->double/float vector casts: gcc treats (__m128d)<__m128i> as a bit reinterpretation, CBMC 6.11
  * converts numerically (found by the self-test: loadh_pd).  All such casts and the 64-bit half moves that go
  * through double-typed builtins are replaced by explicit byte copies. */
